@@ -323,7 +323,9 @@ func (tm *TypeMap) ElemsKey(et types.Type) string {
 func elemsSort(es Sort) Sort  { return ArrSort(SInt, ArrSort(SInt, es)) }
 
 func mapValKey(k, v Sort) string { return "MapVal$" + sortId(k) + "$" + sortId(v) }
-func mapDomKey(k Sort) string    { return "MapDom$" + sortId(k) }
+// the key set of a map lives in a heap of its own per (key sort, value sort), like the values: a callee that inserts
+// into a map[*Node]*Node must not disturb what is known about the key set of a map[*Node]float64
+func mapDomKey(k, v Sort) string { return "MapDom$" + sortId(k) + "$" + sortId(v) }
 
 const mapLenKey = "MapLen"
 const allocKey = "Alloc"
